@@ -22,6 +22,7 @@ def classify(pid, c, impl, model, kind, msg):
         if pred == "claims_duplicate_encode" and c.get("claims_dup"): return f["id"]
         if pred == "key_label_zero" and c.get("label_zero"): return f["id"]
         if pred == "tagged_depth_256" and c.get("depth256"): return f["id"]
+        if pred == "sign_nested_dup_masked" and c.get("sign_nested") and impl == "err:Unexpected": return f["id"]
         if pred == "sign_nested_range_masked" and c.get("sign_nested") and impl == "err:Unexpected": return f["id"]
     return None
 
